@@ -798,6 +798,15 @@ func onStack(st []walkFrame, h *ssa.Function, cur *ssa.Function) bool {
 func bindResults(t *tracker, call *ssa.Call, r *ssa.Return) {
 	if len(r.Results) == 1 {
 		rv := t.resolve(r.Results[0])
+		if _, isConst := rv.(*ssa.Const); isConst {
+			// `return m.isClosed()` whose callee was inlined and answered with a constant on this path: keep the
+			// intermediate value in the chain, so that edge predicates still recognise the call that produced it
+			if _, direct := r.Results[0].(*ssa.Const); !direct {
+				if _, bound := t.subst[r.Results[0]]; bound {
+					rv = r.Results[0]
+				}
+			}
+		}
 		t.subst[call] = rv
 		if t.vals[r.Results[0]] || t.vals[rv] {
 			t.vals[call] = true
